@@ -1,0 +1,15 @@
+//go:build verif
+
+// Package verifhook is a seam for external verification machinery.  With the
+// build tag `verif' every iteration of the library's data dependent loops
+// calls Hook (if set), which lets a harness count loop iterations (a step
+// clock) and abort a run that exceeds its budget.
+package verifhook
+
+var Hook func(site string)
+
+func Tick(site string) {
+  if Hook != nil {
+    Hook(site)
+  }
+}
